@@ -234,6 +234,7 @@ class DataflowBlock(BaseOp):
             inputs=deser_it(self.inputs),
             _sum=tys.Sum([deser_it(r) for r in self.sum_rows]),
             _other_outputs=deser_it(self.other_outputs),
+            extension_delta=self.extension_delta,
         )
 
     model_config = ConfigDict(
